@@ -29,6 +29,15 @@ theorem C09_alternatives (l : List (Expr Atom)) (x : Expr Atom) (hx : x ∈ l) :
 theorem C09_truth (v : Atom → Bool) (e : Expr Atom) (hf : Faithful e) : eval v (dedupE e) = eval v e := by
   rw [C09_struct e hf]; exact dedupRef_eval v e hf
 
+/-- **C09 (twice)**: applying the reference deduplication twice changes nothing more — for every tree … -/
+theorem C09_idem_ref (e : Expr Atom) : dedupRef (dedupRef e) = dedupRef e := dedupRef_idem e
+
+/-- … and so for `dedup()` on render-faithful expressions (whose results are render-faithful again). -/
+theorem C09_idem (e : Expr Atom) (hf : Faithful e) : dedupE (dedupE e) = dedupE e := dedupE_idem e hf
+
+theorem C09_faithful_preserved (e : Expr Atom) (hf : Faithful e) : Faithful (dedupE e) := by
+  rw [C09_struct e hf]; exact dedupRef_faithful e hf
+
 /-- **C09 (combine)**: a sole input is returned as it is; with `unique` off every input is kept, in order -/
 theorem C09_combine_sole (op : Op) (unique : Bool) (x : Expr Atom) : combineCore op unique [x] = some x := by
   cases unique <;> simp [combineCore, uniqByRender, firstKeys, lastWith]
